@@ -96,6 +96,8 @@ def _compact(res, keep_ops):
                                "trigrams", "shared_objects", "signature")}
     out["fs"] = (res.get("cfg") or {}).get("fs")
     out["fault_free"] = (res.get("cfg") or {}).get("fault_free")
+    out["scenario"] = (res.get("cfg") or {}).get("scenario")
+    out["sweep"] = [(res.get("cfg") or {}).get("sweep_kind"), (res.get("cfg") or {}).get("sweep_target")]
     if keep_ops or res["violation"]:
         out["cfg"] = res["cfg"]
         out["ops"] = res["ops"]
